@@ -91,7 +91,9 @@ fn window_hours(m: &Model, w: &bemodel::Window, detail_hours: &[usize]) -> Optio
         .iter()
         .filter(|o| o.id != wall.id && o.linked_to_id.map_or(true, |l| l == w.id))
         .count();
-    Some(json!({"window": w.id.to_string(), "n_candidates": n_candidates, "wall_has_position": wall.geometry.position.is_some(),
+    let n_reveals = occ.iter().filter(|o| o.linked_to_id == Some(w.id)).count();
+    Some(json!({"window": w.id.to_string(), "n_candidates": n_candidates, "n_reveals": n_reveals, "setback": w.geometry.setback as f64,
+                "wall_has_position": wall.geometry.position.is_some(),
                 "window_has_position": w.geometry.position.is_some(), "n_origins": origins.len(), "hours": hours}))
 }
 
